@@ -13,6 +13,7 @@
 package c11
 
 import (
+	"sort"
 	"fmt"
 	"math"
 	"strconv"
@@ -1097,6 +1098,64 @@ func runUnion[T comparable](c UnionCase, f func(int) T, r *pbt.R) error {
 
 // ---------------------------------------------------------------------------
 
+// ---------------------------------------------------------------------------
+// the helpers are pure: concurrent callers, each with slices of their own, get what they get alone
+
+type ParCase struct {
+	H    int `json:"h"`
+	Size int `json:"size"`
+	W    int `json:"workers"`
+}
+
+var parNames = []string{"Unique", "UniqueBy", "Union", "Intersection", "IntersectionBy", "Difference", "DifferenceBy", "Without", "Duplicate(sorted)+DuplicateWithIndex"}
+
+func parCodes(w, size, alpha int) []int {
+	out := make([]int, size)
+	for i := range out {
+		out[i] = (i*i*(w+3) + 5*i + w) % alpha
+	}
+	return out
+}
+
+func parProp(c ParCase, r *pbt.R) error {
+	h := ((c.H % len(parNames)) + len(parNames)) % len(parNames)
+	size := 64 + ((c.Size%12000)+12000)%12000
+	workers := 2 + ((c.W%7)+7)%7
+	half := func(v int) int { return v / 2 }
+	f := func(w int) string {
+		a, b := parCodes(w, size, 61+w), parCodes(w+9, size/2, 47)
+		switch h {
+		case 0:
+			return pbt.Digest(gogu.Unique(a))
+		case 1:
+			return pbt.Digest(gogu.UniqueBy(a, half))
+		case 2:
+			v, err := gogu.Union[int]([]any{a[:size/2], []any{a[size/2:], 5}, b})
+			return pbt.Digest(fmt.Sprint(v, err))
+		case 3:
+			return pbt.Digest(gogu.Intersection(a, b, a[size/4:]))
+		case 4:
+			return pbt.Digest(gogu.IntersectionBy(half, a, b))
+		case 5:
+			return pbt.Digest(gogu.Difference(a, b))
+		case 6:
+			return pbt.Digest(gogu.DifferenceBy(a, b, half))
+		case 7:
+			return pbt.Digest(gogu.Without[int, int](a, b[:20]...))
+		default:
+			d := gogu.Duplicate(a)
+			sort.Ints(d)
+			return pbt.Digest(d) + pbt.Digest(gogu.DuplicateWithIndex(a))
+		}
+	}
+	if err := pbt.Concurrently(workers, 4, f); err != nil {
+		return fmt.Errorf("%s on inputs of about %d elements: %v", parNames[h], size, err)
+	}
+	r.NonTrivial()
+	r.Label(parNames[h])
+	return nil
+}
+
 func TestProp(t *testing.T) {
 	leaf := func(c int) Node { return Node{K: kLeaf, V: []int{c}} }
 	sl := func(c ...int) Node { return Node{K: kSlice, V: append([]int{}, c...)} }
@@ -1161,6 +1220,14 @@ func TestProp(t *testing.T) {
 				{Typ: typInt, Root: bad(2)},
 				{Typ: typInt, Root: bad(0)},
 			},
+		},
+		&pbt.Check[ParCase]{
+			Name: "parallel",
+			Rule: "the helpers are pure functions: 2..8 goroutines call one of Unique, UniqueBy, Union, Intersection, IntersectionBy, Difference, DifferenceBy, Without, Duplicate+DuplicateWithIndex at the same time (real scheduler), each on inputs of its own of 64..12000 elements, four times; every answer must equal the answer of the same call running alone. Non-trivial = every case.",
+			Gen:        func(s pbt.Src, _ bool) ParCase { return ParCase{H: s.Intn(len(parNames)), Size: pbt.Pick(s, 200, 3000, 12000), W: s.Intn(7)} },
+			Prop:       parProp,
+			OutOfEnum:  func(ParCase, bool) bool { return true },
+			RapidQuick: 10, RapidThorough: 120,
 		},
 	)
 }
